@@ -372,5 +372,47 @@ def akey(node: ast.AST, func: FuncInfo | None, limit: int = 70) -> str:
         return text(node, limit)
     if isinstance(copy, ast.Expr):
         copy = copy.value
+    # temporaries (assigned once, read once) are folded back into the statement that uses them, so that the key
+    # does not depend on whether an argument was first bound to a local
+    once = _used_once(func)
+    if once:
+        class F(ast.NodeTransformer):
+            def __init__(self, d):
+                self.d = d
+
+            def visit_Name(self, n):
+                if isinstance(n.ctx, ast.Load) and n.id in once and self.d > 0:
+                    return F(self.d - 1).visit(_copy(once[n.id]))
+                return n
+        copy = F(4).visit(copy)
     new = T().visit(copy)
     return text(new, limit)
+
+
+_once_cache: dict = {}
+
+
+def _used_once(func: FuncInfo) -> dict:
+    k = id(func.node)
+    if k not in _once_cache:
+        loads: dict = {}
+        for n in ast.walk(func.node):
+            if isinstance(n, ast.Name) and isinstance(n.ctx, ast.Load):
+                loads[n.id] = loads.get(n.id, 0) + 1
+        _once_cache[k] = {name: v for name, v in single_assignments(func).items() if loads.get(name, 0) == 1}
+    return _once_cache[k]
+
+
+def formats_index_as_padded_binary(func: FuncInfo) -> bool:
+    """`return format(index, f"0{nqubits}b")` (temporaries folded): zero-padded binary of width nqubits, MSB first."""
+    for st in walk_own(func.node):
+        if isinstance(st, ast.Return) and st.value is not None:
+            v = inline_locals(func, st.value)
+            if isinstance(v, ast.Call) and text(v.func) == "format" and len(v.args) == 2 and not v.keywords \
+                    and text(v.args[0]) == "index" and isinstance(v.args[1], ast.JoinedStr):
+                parts = v.args[1].values
+                if len(parts) == 3 and isinstance(parts[0], ast.Constant) and parts[0].value == "0" and \
+                        isinstance(parts[1], ast.FormattedValue) and text(parts[1].value) == "nqubits" and \
+                        isinstance(parts[2], ast.Constant) and parts[2].value == "b":
+                    return True
+    return False
